@@ -243,6 +243,68 @@ def check_pairs(pairs, config, keep, case, what):
     return renamed, preserved, fwd
 
 
+class _PipeFeeder:
+    """A named pipe standing in for a shell's process substitution: the first reader gets `content`, later ones EOF."""
+
+    def __init__(self, path, content):
+        import threading
+        os.mkfifo(path)
+        self.path, self.content, self.done, self.opens = path, content, False, 0
+        self.thread = threading.Thread(target=self._feed, daemon=True)
+        self.thread.start()
+
+    def _feed(self):
+        while not self.done:
+            try:
+                fd = os.open(self.path, os.O_WRONLY)        # (blocks until somebody opens the pipe for reading)
+            except OSError:
+                return
+            try:
+                if self.opens == 0 and not self.done:
+                    os.write(fd, self.content)
+                self.opens += 1
+            except OSError:
+                pass
+            finally:
+                os.close(fd)
+            if not self.done:
+                __import__('time').sleep(0.01)               # (let the reader see EOF before the next open)
+
+    def stop(self):
+        self.done = True
+        try:
+            fd = os.open(self.path, os.O_RDONLY | os.O_NONBLOCK)     # unblock a feeder waiting in open()
+            os.close(fd)
+        except OSError:
+            pass
+        self.thread.join(2)
+
+
+def _run_cli(src, config, keep, via, case, td, cli):
+    """The command-line routes of run() (used when the keep file is a pipe)."""
+    from pico8 import tool
+    if via == 'build':
+        lp = os.path.join(td, 'm.lua')
+        with open(lp, 'wb') as fh:
+            fh.write(src)
+        outp = os.path.join(td, 'o.p8')
+        argv, what = ['build', outp, '--lua', lp, '--lua-minify'] + cli, '`p8tool build --lua-minify` (keep file is a pipe)'
+    else:
+        path = os.path.join(td, 'c.p8')
+        with open(path, 'wb') as fh:
+            fh.write(reffmt.write_p8(8, src, bytes(0x4300)))
+        outp = os.path.join(td, 'c_fmt.p8')
+        argv, what = ['luamin'] + cli + [path], '`p8tool luamin` (keep file is a pipe)'
+    try:
+        rc = tool.main(argv)
+    except Exception as e:
+        raise Violation('%s raised %r' % (what, e), case, 'cli')
+    if rc != 0:
+        raise Violation('%s returned %r' % (what, rc), case, 'cli')
+    out = reffmt.read_written(open(outp, 'rb').read(), case)['code']
+    return check_pairs(ident_pairs(src, out, case, what), config, keep, case, what)
+
+
 def run(src, config, keep_body, keep, via, case):
     from pico8 import tool
     with tempfile.TemporaryDirectory(prefix='c02_') as td:
@@ -253,10 +315,21 @@ def run(src, config, keep_body, keep, via, case):
             cli = ['--keep-all-names']
         elif config == 'keep_file':
             kf = os.path.join(td, 'keep.txt')
-            with open(kf, 'wb') as fh:
-                fh.write(keep_body)
+            if case.get('keep_is_pipe') and via != 'lib':
+                # the names come through a pipe (`--keep-names-from-file <(grep -v tmp names.txt)`): whoever opens it
+                # first gets the text, every later open gets an empty file
+                feeder = _PipeFeeder(kf, keep_body)
+            else:
+                feeder = None
+                with open(kf, 'wb') as fh:
+                    fh.write(keep_body)
             args['keep_names_from_file'] = kf
             cli = ['--keep-names-from-file', kf]
+            if feeder is not None:
+                try:
+                    return _run_cli(src, config, keep, via, case, td, cli)
+                finally:
+                    feeder.stop()
         what = 'luamin'
         if via == 'lib':
             try:
@@ -345,11 +418,15 @@ def part_populations(ctx):
     def body(seed):
         src, names, config, keep_body, keep, via = build_case(seed, ctx.quick)
         case = {'source': src, 'config': config, 'keep': keep_body, 'via': via}
+        if config == 'keep_file' and via in ('luamin', 'build') and seed[-1] % 2 == 0:
+            case['keep_is_pipe'] = True
         if not fully_parsed(src):
             ctx.stats.exclude('not_parsed_to_the_end_by_this_tree')
             return
         renamed, preserved, fwd = run(src, config, keep_body, keep, via, case)
         labs = ['cfg_' + config, 'via_' + via]
+        if case.get('keep_is_pipe'):
+            labs.append('keep_file_is_a_pipe')
         n = len(fwd)
         if n >= 27:
             labs.append('population>=27')
@@ -505,7 +582,8 @@ def replay(case):
 def vacuity(total, tier):
     msgs = []
     for lab in ('population>=27', 'population>=703', 'keepfile_has_would_be_id', 'uses_builtin', 'cfg_keep_all',
-                'via_luamin', 'via_build', 'via_luamin_two', 'keepfile_starts_with_glyph_name', 'keepfile_shape', 'keepfile_rewritten_in_place'):
+                'via_luamin', 'via_build', 'via_luamin_two', 'keepfile_starts_with_glyph_name', 'keepfile_shape', 'keepfile_rewritten_in_place',
+                'keep_file_is_a_pipe'):
         if total.classes.get(lab, 0) < 2:
             msgs.append('class %s seen %d times' % (lab, total.classes.get(lab, 0)))
     return msgs
